@@ -3,7 +3,7 @@
    depend on the replacement-watch choice are stated for both values. *)
 From Coq Require Import Bool NArith List Arith Lia.
 Import ListNotations.
-From RsddV Require Import Model.UnitProp Proofs.UnitProp.
+From RsddV Require Import Model.UnitProp Proofs.UnitProp Proofs.UnitPropFix.
 
 (* up_sound: after new and after any valid decide/pop history, every frame's model -- in
    particular the current one -- is entailed by the CNF and the decisions on the stack. *)
@@ -64,26 +64,46 @@ Theorem C09_decide_sat_iff_is_sat : forall pinned s a s' r,
 Proof. exact decide_sat_iff_is_sat. Qed.
 Print Assumptions C09_decide_sat_iff_is_sat.
 
-(* up_fixpoint.  Full statement (kept visible; NOT proved in full, see C09_up_fixpoint_partial):
-   for the code as it is now, on CNFs whose stored clauses have no repeated literal, after new
-   and after every valid history no clause is falsified and none has exactly one unassigned
-   literal occurrence and no true literal. *)
+(* up_fixpoint (repaired code): after new and after every valid history no clause is falsified
+   and none has exactly one unassigned literal occurrence and no true literal.
+   Three forms, strongest first:
+   - C09_up_fixpoint_raw: for EVERY input of the pipeline Cnf::new -> SATSolver::new, no
+     hypothesis on the clauses.  Cnf::new sorts stably by label only, so a repeated literal can
+     survive (x, -x, x stays as it is); what it does guarantee -- labels non-decreasing, no two
+     adjacent equal literals -- implies [rem_adj_ok]: the first two unassigned occurrences of a
+     clause are never the same literal, which is all the replacement-watch choice needs.
+   - C09_up_fixpoint_general: for any stored clause list with labels < nvars and [rem_adj_ok].
+   - C09_up_fixpoint: the statement as first planned (no repeated literal inside a stored clause). *)
 Definition C09_up_fixpoint_statement : Prop :=
   forall cls nvars s0 s ds,
     lits_in_range nvars cls -> Forall (@NoDup lit) cls ->
     sat_new false cls nvars = NewSome s0 -> reaches false s0 s ds ->
     fixpoint_ok cls (ss_model (top_state s)) = true.
 
-(* What is proved: the two-watched-literal invariant (S_inv: every clause of length >= 2 is
-   watched by exactly two distinct literals of its own, no list has a repeated entry; V: a
-   clause with a false watched literal has a true literal) is preserved by one
-   UnitPropagate::decide of the repaired code -- for the model on top of the stack, for every
-   model below it (so it survives pop) and also when the decide reports UNSAT -- and it implies
-   the fix-point clause for the resulting model.  Missing for the full statement: that
-   UnitPropagate::new establishes S_inv/V (the scan of 99-117) and the bookkeeping that carries
-   the invariant along the frames of the state stack. *)
-Theorem C09_up_fixpoint_partial : forall nvars cls fuel w m a w' r,
-  lits_in_range nvars cls -> Forall (@NoDup lit) cls -> ~ In [] cls ->
+Theorem C09_up_fixpoint : C09_up_fixpoint_statement.
+Proof. exact up_fixpoint_nodup. Qed.
+Print Assumptions C09_up_fixpoint.
+
+Theorem C09_up_fixpoint_general : forall nvars cls s0 s ds,
+  lits_in_range nvars cls -> rem_adj_ok cls ->
+  sat_new false cls nvars = NewSome s0 -> reaches false s0 s ds ->
+  fixpoint_ok cls (ss_model (top_state s)) = true.
+Proof. intros nvars cls s0 s ds Hr Ha. exact (up_fixpoint nvars cls Hr Ha s0 s ds). Qed.
+Print Assumptions C09_up_fixpoint_general.
+
+Theorem C09_up_fixpoint_raw : forall raw s0 s ds,
+  solver_of_raw false raw = NewSome s0 -> reaches false s0 s ds ->
+  fixpoint_ok (cnf_new raw) (ss_model (top_state s)) = true.
+Proof. exact up_fixpoint_raw. Qed.
+Print Assumptions C09_up_fixpoint_raw.
+
+Theorem C09_cnf_new_adj_ok : forall raw, rem_adj_ok (cnf_new raw).
+Proof. exact cnf_new_adj_ok. Qed.
+Print Assumptions C09_cnf_new_adj_ok.
+
+(* the invariant behind it, one decide at a time (top model, every model below it, failed decides) *)
+Theorem C09_up_fixpoint_step : forall nvars cls fuel w m a w' r,
+  lits_in_range nvars cls -> rem_adj_ok cls -> ~ In [] cls ->
   S_inv nvars cls w -> length m = nvars -> lvar a < nvars ->
   up_decide false cls fuel w m a = URes w' r ->
   S_inv nvars cls w' /\
@@ -91,12 +111,7 @@ Theorem C09_up_fixpoint_partial : forall nvars cls fuel w m a w' r,
   (forall m', r = Some m' -> V cls [] w m -> units_true cls m ->
      V cls [] w' m' /\ units_true cls m' /\ length m' = nvars /\ pm_le m m' /\ fixpoint_ok cls m' = true).
 Proof. exact fix_step. Qed.
-Print Assumptions C09_up_fixpoint_partial.
-
-Theorem C09_invariant_implies_fixpoint : forall nvars cls w m,
-  S_inv nvars cls w -> V cls [] w m -> units_true cls m -> ~ In [] cls -> fixpoint_ok cls m = true.
-Proof. exact inv_fixpoint. Qed.
-Print Assumptions C09_invariant_implies_fixpoint.
+Print Assumptions C09_up_fixpoint_step.
 
 (* hash_injective.  Full statement (kept visible; NOT proved -- checked only by the
    correspondence and the oracle): under the guard 0 < product of all literal weights < 2^128,
